@@ -392,9 +392,15 @@ impl UpdateHandle {
         let mut path_proof_offset = 0;
         let mut witnessed_start = 0;
 
+        // Workers finish in any order, but the witnessed operations are attributed to paths by
+        // walking the operation list sequentially: process the outputs in key-range order.
+        let mut outputs = Vec::with_capacity(self.num_workers);
         for _ in 0..self.num_workers {
-            let output = join_task(&self.worker_rx)?;
+            outputs.push(join_task(&self.worker_rx)?);
+        }
+        outputs.sort_by_key(|output| output.range_start);
 
+        for output in outputs {
             if let Some(root) = output.root {
                 assert!(new_root.is_none());
                 new_root = Some(root);
@@ -492,6 +498,8 @@ enum RootPagePending {
 }
 
 struct WorkerOutput {
+    // the index in the shared operation list where this worker's key range begins.
+    range_start: usize,
     root: Option<Node>,
     witnessed_paths: Option<Vec<(WitnessedPath, Option<trie::LeafData>, usize)>>,
     updated_pages: Vec<UpdatedPage>,
@@ -500,6 +508,7 @@ struct WorkerOutput {
 impl WorkerOutput {
     fn new(witness: bool) -> Self {
         WorkerOutput {
+            range_start: 0,
             root: None,
             witnessed_paths: if witness { Some(Vec::new()) } else { None },
             updated_pages: Vec::new(),
